@@ -283,3 +283,8 @@ def meta(results, tier):
             'assumptions': ['floats in timeouts treated as reals', 'make_key is an injective function of (prefix, version, key)',
                             'composition with C04: a negative ttl is expired at every later reading'],
             'explanation': 'every DjangoCache method body executed against a recorder FanoutCache; timeout in {DEFAULT, None, any real}'}
+
+
+def post_process(results, tier):
+    from contracts import c03 as _c03
+    return _c03.dependency_rename('C19', results)
